@@ -24,9 +24,17 @@ def one(args):
         if a.returncode != 0:
             return name, pid, "patch-does-not-apply", a.stderr[-200:]
         env = dict(os.environ, VERIF_REPO=wt, VERIF_TARGET="/tmp/seedrc-target-%d" % slot, VERIF_OUT="/tmp/seedrc-out-%d" % slot, VERIF_WORK="/tmp/seedrc-work-%d" % slot)
-        r = subprocess.run([V + "/check", pid, "--tier", "quick"], capture_output=True, text=True, env=env, cwd=V)
-        viol = [l.split("#")[-1].strip() for l in r.stdout.splitlines() if l.startswith("VIOLATION")]
-        return name, pid, ("caught" if r.returncode == 1 and viol else "MISSED(exit %d)" % r.returncode), "; ".join(viol[:3])[:160]
+        # the check of the seed's own property first, then the neighbouring checks recorded as catching it
+        order = [pid] + [c for c in meta.get("caught_by", []) if c != pid]
+        first = None
+        for cid in order:
+            r = subprocess.run([V + "/check", cid, "--tier", "quick"], capture_output=True, text=True, env=env, cwd=V)
+            viol = [l.split("#")[-1].strip() for l in r.stdout.splitlines() if l.startswith("VIOLATION")]
+            if r.returncode == 1 and viol:
+                return name, pid, ("caught" if cid == pid else "caught-by-%s(own check exit %s)" % (cid, first)), "; ".join(viol[:3])[:160]
+            if first is None:
+                first = r.returncode
+        return name, pid, "MISSED(exit %s)" % first, ""
     finally:
         subprocess.run(["git", "-C", "/repo", "worktree", "remove", "--force", wt], capture_output=True)
 
@@ -54,4 +62,4 @@ for s in range(slots):
     subprocess.run("rm -rf /tmp/seedrc-target-%d /tmp/seedrc-out-%d /tmp/seedrc-work-%d" % (s, s, s), shell=True)
 missed = [r[0] for r in allres if r[2] != "caught"]
 json.dump([{"name": r[0], "property": r[1], "status": r[2], "violations": r[3]} for r in sorted(allres)], open(V + "/seeded/recheck.json", "w"), indent=1)
-print("seeded changes: %d, caught by the quick check of their property: %d, not caught: %s" % (len(allres), len(allres) - len(missed), missed))
+print("seeded changes: %d, caught: %d, not caught: %s" % (len(allres), len(allres) - len(missed), missed))
